@@ -328,6 +328,18 @@ func cfgInput(c *Ctx, kind string, ops []cfgOp) []rune {
 }
 
 func propTokC(c *Ctx, n int) {
+	// the first character of an input is handed to its state like any other: U+FEFF, NUL, U+2028 … configured or not
+	for _, k := range []string{"g", "e"} {
+		for _, first := range []rune{0xfeff, 0, 0x2028, 0xfffe, 0x200b, 0xa0} {
+			for _, x := range []string{"s", "w", "b", "q", "0"} {
+				ops := []cfgOp{{k: "D", lo: int(first), hi: int(first), x: x}}
+				for _, rest := range []string{"", "a", " a", "a b", string(first) + "a"} {
+					runTokCCase(c, k, 0, ops, append([]rune{first}, []rune(rest)...), "first-character")
+				}
+			}
+			runTokCCase(c, k, 0, []cfgOp{{k: "W", lo: int(first), hi: int(first), x: "1"}}, append([]rune{first}, 'a', first, 'b'), "first-character")
+		}
+	}
 	for i := 0; i < n; i++ {
 		kind := []string{"g", "e"}[c.Rng.Intn(2)]
 		ops := randCfgOps(c, 1+c.Rng.Intn(5))
